@@ -149,6 +149,8 @@ def generate(rs: int, tier: str, index: int) -> dict:
                       "extra_op": ch.below(6), "reach": _reach(ch.sub("r")), "other_options": _other(ch.sub("oo"))})
         if ch.sub("abort").chance(0.15):
             steps[-1]["abort_first"] = ch.sub("abort").below(100000)
+        if kind != "plain" and mode == 4 and ch.sub("same").chance(0.6):
+            steps[-1]["same_object"] = True  # p compared with p itself, not with an equal copy
         cr = ch.sub("rewrite")
         if kind != "plain" and cr.chance(0.3):
             # history: the operands were compared before; then one of them got new coefficient values in place
@@ -257,6 +259,8 @@ class Runner:
         except core.Undecided as exc:
             self.bump(f"undecided:{exc.reason}")
             return
+        if step.get("same_object") and not step.get("rewrite"):
+            b = a
         left, right = (b, a) if step.get("swap") else (a, b)
         ref_a, ref_b = a, b
         if step.get("rewrite"):
